@@ -187,6 +187,10 @@ func (la *lockAnalysis) lockOp(ci ssa.CallInstruction) (base ssa.Value, op strin
 	if !isMutexType(fa.Type().(*types.Pointer).Elem()) {
 		return nil, "", false
 	}
+	if la.spec.Type == nil {
+		// any mutex of any object: the key is the field address itself
+		return fa, f.Name(), true
+	}
 	owner := NamedOf(fa.X.Type())
 	if owner == nil || owner.Obj() != la.spec.Type.Obj() {
 		return nil, "", false
@@ -424,6 +428,26 @@ func AnalyzeLock(spec *LockSpec, funcs []*ssa.Function) *LockResult {
 				return -1 - i, true
 			}
 		}
+		// a parameter spilled into a local cell (captured by a closure): *cell, cell only ever holds the parameter
+		if u, ok := v.(*ssa.UnOp); ok && u.Op == token.MUL {
+			if a, ok := u.X.(*ssa.Alloc); ok {
+				var only ssa.Value
+				n := 0
+				for _, ref := range *a.Referrers() {
+					if st, ok := ref.(*ssa.Store); ok && st.Addr == a {
+						only = st.Val
+						n++
+					}
+				}
+				if n == 1 {
+					for i, p := range fn.Params {
+						if ssa.Value(p) == only {
+							return i, true
+						}
+					}
+				}
+			}
+		}
 		// a pointer-typed free variable cell holding the object: *fv
 		if u, ok := v.(*ssa.UnOp); ok && u.Op == token.MUL {
 			for i, fv := range fn.FreeVars {
@@ -652,3 +676,36 @@ func (r *LockResult) DescribeRequires() []string {
 }
 
 var _ = strings.Join
+
+// AnyLocks computes, for one function, the mutexes (of any object) that are held on every path
+// at an instruction. Keys are access paths of the mutex field ("&e.mu").
+type AnyLocks struct{ la *lockAnalysis }
+
+func NewAnyLocks() *AnyLocks {
+	return &AnyLocks{la: &lockAnalysis{spec: &LockSpec{}, in: map[*ssa.Function][]lockset{}}}
+}
+
+// HeldAt returns key -> true for write-held, false for read-held.
+func (a *AnyLocks) HeldAt(instr ssa.Instruction) map[string]bool {
+	out := map[string]bool{}
+	for k, m := range a.la.heldAt(instr) {
+		out[k] = m == modeW
+	}
+	return out
+}
+
+// IsUnlockOf reports whether instr releases the mutex with the given key.
+func (a *AnyLocks) IsUnlockOf(instr ssa.Instruction, key string) bool {
+	ci, ok := instr.(ssa.CallInstruction)
+	if !ok {
+		return false
+	}
+	if _, isDefer := instr.(*ssa.Defer); isDefer {
+		return false
+	}
+	base, op, ok := a.la.lockOp(ci)
+	if !ok || (op != "Unlock" && op != "RUnlock") {
+		return false
+	}
+	return BaseKey(base) == key
+}
